@@ -8,6 +8,7 @@ import (
 	"encoding/json"
 	"fmt"
 	"go/ast"
+	"go/constant"
 	"go/parser"
 	"go/token"
 	"go/types"
@@ -91,6 +92,7 @@ type tr struct {
 	locals   map[types.Object]ast.Expr // single-assignment local initialisers
 	localPkg map[types.Object]*packages.Package
 	nassign  map[types.Object]int
+	rangeOf  map[types.Object]ast.Expr // value variable of `for _, v := range X` -> X
 	effMemo  map[*types.Func]int // 0 unknown, 1 computing, 2 no, 3 yes
 	unknown  map[string]int
 }
@@ -123,6 +125,14 @@ func qname(f *types.Func) string {
 // render prints an expression with inlined-call parameters replaced by the caller's argument text and
 // single-assignment locals replaced by their initialiser (two levels deep).
 func (t *tr) render(p *packages.Package, e ast.Expr, depth int) string {
+	// anything with a constant value (named constants of any spelling, literals, constant arithmetic) is rendered as its VALUE:
+	// the witness subject must not depend on how a constant is called or spelled
+	if tv, ok := p.TypesInfo.Types[e]; ok && tv.Value != nil && repoConstExpr(p, e) {
+		switch tv.Value.Kind() {
+		case constant.Int, constant.String, constant.Bool:
+			return tv.Value.ExactString()
+		}
+	}
 	switch x := e.(type) {
 	case *ast.Ident:
 		o := p.TypesInfo.Uses[x]
@@ -132,6 +142,15 @@ func (t *tr) render(p *packages.Package, e ast.Expr, depth int) string {
 		if o != nil {
 			if s, ok := t.subst[o]; ok {
 				return s
+			}
+			if c, ok := o.(*types.Const); ok && c.Pkg() != nil && strings.Contains(c.Pkg().Path(), "neofs-contract") {
+				switch c.Val().Kind() {
+				case constant.Int, constant.String, constant.Bool:
+					return c.Val().ExactString()
+				}
+			}
+			if rx, ok := t.rangeOf[o]; ok && depth < 3 {
+				return "elem(" + t.render(t.localPkg[o], rx, depth+1) + ")"
 			}
 			if init, ok := t.locals[o]; ok && t.nassign[o] == 1 && depth < 3 {
 				return t.render(t.localPkg[o], init, depth+1)
@@ -171,6 +190,48 @@ func (t *tr) render(p *packages.Package, e ast.Expr, depth int) string {
 				}
 			}
 		}
+		// an UNEXPORTED helper of the repository whose body is `return <expr>` is rendered as that expression with the
+		// arguments in place of the parameters (alphabet.index(ctx)): its name is not part of the witness subject
+		if depth < 3 {
+			if f := t.fn(p, x.Fun); f != nil && !f.Exported() {
+				if fd, ok := t.decls[f]; ok && fd.Body != nil && fd.Recv == nil && len(fd.Body.List) == 1 {
+					if rs, ok := fd.Body.List[0].(*ast.ReturnStmt); ok && len(rs.Results) == 1 {
+						if cp := t.dpkg[f]; cp != nil {
+							var params []types.Object
+							for _, fl := range fd.Type.Params.List {
+								for _, nm := range fl.Names {
+									params = append(params, cp.TypesInfo.Defs[nm])
+								}
+							}
+							if len(params) == len(x.Args) {
+								saved := map[types.Object]*string{}
+								for i, po := range params {
+									if po == nil {
+										continue
+									}
+									if old, had := t.subst[po]; had {
+										o2 := old
+										saved[po] = &o2
+									} else {
+										saved[po] = nil
+									}
+									t.subst[po] = t.render(p, x.Args[i], depth)
+								}
+								out := t.render(cp, rs.Results[0], depth+1)
+								for po, old := range saved {
+									if old == nil {
+										delete(t.subst, po)
+									} else {
+										t.subst[po] = *old
+									}
+								}
+								return out
+							}
+						}
+					}
+				}
+			}
+		}
 		var as []string
 		for _, a := range x.Args {
 			as = append(as, t.render(p, a, depth))
@@ -199,9 +260,35 @@ func (t *tr) render(p *packages.Package, e ast.Expr, depth int) string {
 	return types.ExprString(e)
 }
 
+// repoConstExpr: a constant expression built only from literals and constants declared in the repository under test
+// (constants of neo-go's interop packages such as gas.Hash or roles.NeoFSAlphabet keep their qualified names)
+func repoConstExpr(p *packages.Package, e ast.Expr) bool {
+	switch x := e.(type) {
+	case *ast.BasicLit:
+		return true
+	case *ast.ParenExpr:
+		return repoConstExpr(p, x.X)
+	case *ast.UnaryExpr:
+		return repoConstExpr(p, x.X)
+	case *ast.BinaryExpr:
+		return repoConstExpr(p, x.X) && repoConstExpr(p, x.Y)
+	case *ast.Ident:
+		c, ok := p.TypesInfo.Uses[x].(*types.Const)
+		return ok && c.Pkg() != nil && strings.Contains(c.Pkg().Path(), "neofs-contract")
+	case *ast.SelectorExpr:
+		c, ok := p.TypesInfo.Uses[x.Sel].(*types.Const)
+		return ok && c.Pkg() != nil && strings.Contains(c.Pkg().Path(), "neofs-contract")
+	case *ast.CallExpr: // conversions such as byte(97), int64(5)
+		if tv, ok := p.TypesInfo.Types[x.Fun]; ok && tv.IsType() && len(x.Args) == 1 {
+			return repoConstExpr(p, x.Args[0])
+		}
+	}
+	return false
+}
+
 var reMultisig = regexp.MustCompile(`^contract\.CreateMultisigAccount\((.+),neo\.GetCommittee\(\)\)$`)
 var siteThresholds = map[string]bool{}
-var reNeofsAlpha = regexp.MustCompile(`^(neofs\.multiaddress\(|common\.Multiaddress\()neofs\.getAlphabetNodes\([a-zA-Z.]*(\(\))?\)(,false)?\)$`)
+var reNeofsAlpha = regexp.MustCompile(`^(neofs\.[a-z][A-Za-z0-9]*\(|common\.Multiaddress\()neofs\.[a-z][A-Za-z0-9]*\([a-zA-Z.]*(\(\))?\)(,false)?\)$`)
 
 func returnsBytes(f *types.Func) bool {
 	sig, ok := f.Type().(*types.Signature)
@@ -249,9 +336,9 @@ func canon(s string) string {
 		return "irAlphabet"
 	case "common.Multiaddress(roles.GetDesignatedByRole(roles.NeoFSAlphabet,uint32(ledger.CurrentIndex()+1)),true)":
 		return "irMajority"
-	case "common.AlphabetNodes()[alphabet.index(storage.GetReadOnlyContext())]":
+	case `common.AlphabetNodes()[storage.Get(storage.GetReadOnlyContext(),"index")]`:
 		return "ownAlphabetNode"
-	case "contract.Call(storage.Get(storage.GetContext(),neofsContractKey),multiaddrMethod,contract.ReadOnly)":
+	case `contract.Call(storage.Get(storage.GetContext(),"neofsScriptHash"),"alphabetAddress",contract.ReadOnly)`:
 		return "neofsAlphabetAddress"
 	}
 	// a multi-signature account over the committee keys built in place (nns.checkCommittee): the committee atom, provided the
@@ -992,7 +1079,7 @@ func accessMain(repo, outLean, outJSON string) {
 		die(err)
 	}
 	t := &tr{decls: map[*types.Func]*ast.FuncDecl{}, dpkg: map[*types.Func]*packages.Package{}, subst: map[types.Object]string{},
-		locals: map[types.Object]ast.Expr{}, localPkg: map[types.Object]*packages.Package{}, nassign: map[types.Object]int{},
+		locals: map[types.Object]ast.Expr{}, localPkg: map[types.Object]*packages.Package{}, nassign: map[types.Object]int{}, rangeOf: map[types.Object]ast.Expr{},
 		effMemo: map[*types.Func]int{}, unknown: map[string]int{}}
 	for _, p := range pkgs {
 		if len(p.Errors) > 0 {
@@ -1079,6 +1166,7 @@ func accessMain(repo, outLean, outJSON string) {
 				}
 				t.locals = map[types.Object]ast.Expr{}
 				t.localPkg = map[types.Object]*packages.Package{}
+				t.rangeOf = map[types.Object]ast.Expr{}
 				collectInits(t, pkgs)
 				ir := simplify(t.block(p, fd.Body.List))
 				am := map[string]bool{}
@@ -1295,6 +1383,13 @@ func collectInits(t *tr, pkgs []*packages.Package) {
 									t.localPkg[o] = p
 								}
 							}
+						}
+					}
+				case *ast.RangeStmt:
+					if id, ok := x.Value.(*ast.Ident); ok && x.Tok == token.DEFINE {
+						if o := p.TypesInfo.Defs[id]; o != nil {
+							t.rangeOf[o] = x.X
+							t.localPkg[o] = p
 						}
 					}
 				case *ast.ValueSpec:
